@@ -2,6 +2,7 @@
 for DiffReportContract (C09, C19) and the determinism contract (C10)."""
 import json
 import os
+import zlib
 
 import gogen
 import vlib
@@ -131,7 +132,7 @@ def project(raw, old, new):
         if x.get("missing"):
             continue
         sims.append({"a": x["a"], "b": x["b"], "ab": int(round(float(x["ab"]) * 1e6)), "ba": int(round(float(x["ba"]) * 1e6)),
-                     "one": x["one"], "eq": x["eq"], "same": body_old.get(x["a"]) == body_new.get(x["b"])})
+                     "one": x["one"], "eq": x["eq"], "same": body_old.get(x["a"]) == body_new.get(x["b"]), "ge": bool(x.get("ge"))})
     for x in sims:          # exact symmetry is judged on the floats themselves
         if not x["eq"]:
             x["ba"] = x["ab"] + 1
@@ -139,7 +140,7 @@ def project(raw, old, new):
             "tm": tm, "sims": sims}
 
 
-def run_pairs(ctx, pairs, name):
+def run_pairs(ctx, pairs, name, allsims=False):
     """pairs: list of (old funcs, new funcs).  Returns (events, raws)."""
     base = os.path.join(ctx.scratch, name)
     plan = []
@@ -149,9 +150,9 @@ def run_pairs(ctx, pairs, name):
         sims = []
         for o in ao:
             for n in an:
-                if o["origin"] == n["origin"] or (len(sims) < 40 and (hash(o["name"] + n["name"]) % 7 == 0)):
+                if o["origin"] == n["origin"] or (len(sims) < 40 and (zlib.crc32((o["name"] + n["name"]).encode()) % 7 == 0)):
                     sims.append([o["name"], n["name"]])
-        plan.append({"old": po, "new": pn, "sims": sims})
+        plan.append({"old": po, "new": pn, "sims": sims, "allsims": bool(allsims)})
     pp = os.path.join(ctx.scratch, name + ".plan.json")
     raw = os.path.join(ctx.scratch, name + ".raw.ndjson")
     with open(pp, "w") as fh:
